@@ -91,9 +91,16 @@ def run(ck):
         for _ in range(rng.randrange(3, 40)):
             r = rng.random()
             ind = " " * rng.choice([0, 0, 1, 4]) + ("\t" if rng.random() < 0.1 else "")
-            cm = rng.choice(["", "", " // c", "//x"])
-            if r < 0.35:
+            cm = rng.choice(["", "", " // c", "//x", " // é—ö", "//日本語 ü"])
+            if r < 0.30:
                 lines.append(ind + "struct S%d {}")
+            elif r < 0.35:
+                # characters of two, three and four bytes before, on and after the probe line
+                v = rng.choice(["struct S%d {} /* ü */", "struct S%d {} // é°—ö", "/// dôc 日本語 😀", "// ünï cödé 😀"])
+                if "%d" not in v:
+                    lines.append(ind + v)
+                    v = "struct S%d {}"
+                lines.append(ind + v)
             elif r < 0.4:
                 lines.append("")
             elif r < 0.55 and depth < 5:
